@@ -184,6 +184,11 @@ struct NonConstArrayLengthError : public Error {
     Error(location, (boost::format("array %s length is not constant") % name).str()) {}
 };
 
+struct NonConstValError : public Error {
+  NonConstValError(Location location, std::string name) :
+    Error(location, (boost::format("val %s is not constant") % name).str()) {}
+};
+
 struct InvalidSyscallError : public Error {
   InvalidSyscallError(Location location, int sysCallId) :
     Error(location, (boost::format("invalid syscall: %d") % sysCallId).str()) {}
@@ -786,7 +791,7 @@ public:
 
 class ValDecl : public Decl {
   std::unique_ptr<Expr> expr;
-  int exprValue;
+  std::optional<int> exprValue;
 public:
   ValDecl(Location location, std::string name, std::unique_ptr<Expr> expr) :
       Decl(location, name), expr(std::move(expr)) {}
@@ -797,7 +802,8 @@ public:
     visitor->visitPost(*this);
   }
   Expr *getExpr() const { return expr.get(); }
-  int getValue() const { return exprValue; }
+  bool hasValue() const { return exprValue.has_value(); }
+  int getValue() const { return exprValue.value(); }
   void setValue(int value) { exprValue = value; }
 };
 
@@ -1819,9 +1825,11 @@ public:
   ConstProp(SymbolTable &symbolTable) :
     AstVisitor(true, true, true), symbolTable(symbolTable) {}
   void visitPost(ValDecl &decl) {
-    if (decl.getExpr()->isConst()) {
-      decl.setValue(decl.getExpr()->getValue());
+    // A val names a constant: its expression must fold to a value here.
+    if (!decl.getExpr()->isConst()) {
+      throw NonConstValError(decl.getLocation(), decl.getName());
     }
+    decl.setValue(decl.getExpr()->getValue());
   }
   void visitPost(BinaryOpExpr &expr) {
     auto &LHS = expr.getLHS();
@@ -1874,6 +1882,10 @@ public:
       auto symbol = symbolTable.lookup(std::make_pair(getCurrentScope(), expr.getName()),
                                        expr.getLocation());
       if (auto symbolExpr = dynamic_cast<const ValDecl*>(symbol->getNode())) {
+        if (!symbolExpr->hasValue()) {
+          // Used before its definition has been evaluated.
+          throw NonConstValError(expr.getLocation(), expr.getName());
+        }
         expr.setSysCallId(symbolExpr->getValue());
       } else {
         return;
@@ -1891,7 +1903,10 @@ public:
     auto symbol = symbolTable.lookup(std::make_pair(getCurrentScope(), expr.getName()),
                                      expr.getLocation());
     if (auto symbolExpr = dynamic_cast<const ValDecl*>(symbol->getNode())) {
-      expr.setValue(symbolExpr->getValue());
+      // Only a val whose definition has already been evaluated has a value.
+      if (symbolExpr->hasValue()) {
+        expr.setValue(symbolExpr->getValue());
+      }
     }
   }
 };
